@@ -82,6 +82,8 @@ func main() {
 		{Name: "F10-issuance-locked-coins", Cfg: cfgF10, Script: history.ScenarioF10()},
 		{Name: "F12-kavadist-sub-second", Cfg: cfgInfra, Script: history.ScenarioSubSecond()},
 		{Name: "F11-kavadist-partner-rewards", Cfg: cfgF11, Script: history.ScenarioPartnerRewards()},
+		{Name: "last-cdps-liquidated-39s", Cfg: cfg1, Script: history.ScenarioLastCdpsLiquidated(39 * time.Second)},
+		{Name: "last-cdps-liquidated-1h", Cfg: cfg1, Script: history.ScenarioLastCdpsLiquidated(time.Hour + 13*time.Second)},
 		{Name: "hard-multi-denom-liquidation", Cfg: cfg, Script: history.ScenarioHardMultiDenom(), Blocks: 20, MaxTxs: 5, PriceEvery: 5},
 		{Name: "gov-tally-bkava", Cfg: cfg, Script: history.ScenarioGovTallyBkava(cfg.GovVotingPeriod), Blocks: 15, MaxTxs: 5, PriceEvery: 5},
 		{Name: "committee-param-change", Cfg: cfg, Script: history.ScenarioCommitteeParamChange(), Blocks: 15, MaxTxs: 5, PriceEvery: 5},
@@ -96,6 +98,14 @@ func main() {
 		cf.LiquidationInterval = int64(1 + i%4)
 		cf.KavadistInfra = i%4 == 3 // a quarter of the random histories run with infrastructure periods
 		plans = append(plans, history.Plan{Name: fmt.Sprintf("random-%d", i), Cfg: cf, Blocks: blocks, MaxTxs: 8, PriceEvery: 4})
+	}
+	// cdp-only histories: few, mostly minimum-size positions, short gaps with accrual, and market crashes that
+	// let one begin block liquidate the last CDPs of every collateral type
+	nCdp := c.Budget(6, 40)
+	for i := 0; i < nCdp; i++ {
+		cf := cfg
+		cf.LiquidationInterval = int64(1 + i%2)
+		plans = append(plans, history.Plan{Name: fmt.Sprintf("cdp-crash-%d", i), Cfg: cf, Blocks: 60, MaxTxs: 3, PriceEvery: 6, CrashEvery: 9, Focus: "cdp"})
 	}
 	for i := range plans {
 		plans[i].Seed = rng.Fork(uint64(i)).U64()
@@ -164,6 +174,14 @@ func runPlan(out *c.Out, plan history.Plan) {
 		out.NoteN(s, n)
 	}
 	out.NoteN("blocks", len(h.Blocks))
+	if strings.HasPrefix(plan.Name, "last-cdps-liquidated") && h.Stopped == "" {
+		last := obs[int64(len(h.Blocks))]
+		if last == nil || last.cdps != 0 {
+			out.Violation("C02 scenario " + plan.Name + " did not liquidate all CDPs (generator or parameters drifted)")
+		} else {
+			out.Note("last-cdps-liquidated-without-panic")
+		}
+	}
 	if plan.Name == "F2-cdp-debt-split" && h.Stopped == "" {
 		// regression guard: the scenario is only meaningful if the block liquidation really took place
 		last := obs[int64(len(h.Blocks))]
@@ -177,6 +195,9 @@ func runPlan(out *c.Out, plan history.Plan) {
 	class := plan.Name
 	if strings.HasPrefix(class, "random-") {
 		class = "random"
+	}
+	if strings.HasPrefix(class, "cdp-crash-") {
+		class = "cdp-crash"
 	}
 	reported := map[string]bool{}
 	for hi, res := range h.Results {
